@@ -474,8 +474,12 @@ with ji_nest (i : jitem) : nat :=
 
 (* mark_list_node walks from a list seed (the cell whose rdf:rest is rdf:nil) towards the head.
    The cells are listed in that order; for each: [mc_ok] = it has a unique parent, in the same
-   graph, (not through rdf:first in 1.0 mode,) and is_list_node holds; [mc_up] = that parent is a
-   blank node and the link is rdf:rest.  Result: the cells marked as list nodes. *)
+   graph, (not through rdf:first in 1.0 mode,) it occurs in no other graph (bnode_graphs == 1) and
+   is_list_node holds; [mc_up] = that parent is a blank node and the link is rdf:rest.
+   Result: the cells marked as list nodes.
+   (unmark_unanchored_list_nodes, which runs afterwards, is written with an explicit path vector
+   -- no recursion -- and keeps every mark of a list whose head hangs from a rendered node, the
+   only lists considered here.) *)
 Record mcell := mk_mc { mc_id : N; mc_ok : bool; mc_up : bool }.
 Fixpoint mark_rec_c (cells : list mcell) : C (list N) :=
   call (match cells with
